@@ -73,7 +73,7 @@ RULE = (
     "character per scanner class: '%', a hex digit, an upper-case hex letter, a lower-case hex "
     "letter, a non-hex letter, a delimiter, a multi-byte character (thorough: + a raw space), so "
     "that every two- and three-character window of classes occurs at every offset; (4) seeded "
-    "random sequences of 3..12 atoms. Each string is run through safely_quote, the four "
+    "random sequences of 3..12 atoms (the compositions below on every third one). Each string is run through safely_quote, the four "
     "safely_unquote_* functions and upper_quoted, and through the 28 compositions the theorems "
     "speak about (per unquoter u: q(u s), u(q(u s)), q(u(q(u s))), u(u s), u(upper s), upper(u s); "
     "upper(upper s), q(upper s), upper(q s), q(q s)) and through safely_unquote_qsl / safely_quote_qsl / "
@@ -157,9 +157,12 @@ def cases(rng, tier):
         for t in itertools.product(alpha, repeat=k):
             yield {"s": "".join(t)}
     n = 30000 if tier == "quick" else 120000
-    for _ in range(n):
+    for i in range(n):
         k = rng.randint(3, 12)
-        yield {"s": "".join(rng.choice(ATOMS) for _ in range(k))}
+        c = {"s": "".join(rng.choice(ATOMS) for _ in range(k))}
+        if i % 3:
+            c["lite"] = 1  # the six functions only; the compositions run on every third random case
+        yield c
     # UTF-8 segmentation stream
     for a in BYTE_ATOMS:
         yield {"bytes": a}
@@ -178,7 +181,10 @@ def ops(case):
     if "bytes" in case:
         return [{"f": "utf8seg", "bytes": case["bytes"]}]
     s = case["s"]
-    return [{"f": "quote", "fn": fn, "s": s} for fn in FNS] + [{"f": "pct", "s": s}, {"f": "chains", "s": s}, {"f": "qsl", "s": s}]
+    base = [{"f": "quote", "fn": fn, "s": s} for fn in FNS] + [{"f": "pct", "s": s}]
+    if case.get("lite"):
+        return base
+    return base + [{"f": "chains", "s": s}, {"f": "qsl", "s": s}]
 
 
 UNQUOTERS = FNS[1:5]
@@ -234,7 +240,10 @@ def impl(case):
             return [None]
         return [out]
     s = case["s"]
-    return [lib.guarded(_fn(fn), s) for fn in FNS] + [list(unquote_to_bytes(s)), lib.guarded(_chains, s), lib.guarded(_qsl, s)]
+    base = [lib.guarded(_fn(fn), s) for fn in FNS] + [list(unquote_to_bytes(s))]
+    if case.get("lite"):
+        return base
+    return base + [lib.guarded(_chains, s), lib.guarded(_qsl, s)]
 
 
 def canon(op, out):
